@@ -7,6 +7,7 @@ package main
 
 import (
 	"fmt"
+	"strings"
 
 	"github.com/evanw/esbuild/pkg/api"
 	. "github.com/evanw/esbuild/verifharness/hlib"
@@ -70,6 +71,19 @@ var typedUntypedPairs = []pair{
 	{"declare module 'm' { export const a: number } declare namespace N.M { const c: number } declare enum E { A } declare global { } x = 1; export {};", "x = 1; export {};"},
 }
 
+// pairs whose untyped side is TypeScript too (namespaces / import-equals are not JavaScript):
+// both sides go through the ts loader
+var typedUntypedPairsTS = []pair{
+	{"namespace Geometry { export namespace Shapes { export class Point {} } } import Pt = Geometry.Shapes.Point; let p: Pt;", "namespace Geometry { export namespace Shapes { export class Point {} } } let p;"},
+	{"declare namespace Geometry { namespace Shapes { class Point {} } } import Pt = Geometry.Shapes.Point; let p: Pt;", "let p;"},
+	{"namespace A { export namespace B { export namespace C { export type T = 1 } } } import C = A.B.C; import T = C.T; let t: T;", "let t;"},
+	{"import T = C.T; import C = A.B.C; let t: T; declare namespace A.B.C { type T = 1 }", "let t;"},
+	{"declare namespace A.B.C.D { type T = 1 } import X = A.B.C.D.T; let t: X[];", "let t;"},
+	{"declare namespace A { type T = 1 } import X = A.T; let t: X;", "let t;"},
+	{"namespace A { export namespace B { export const v = 1 } } import X = A.B.v; let t: typeof X = X;", "namespace A { export namespace B { export const v = 1 } } import X = A.B.v; let t = X;"},
+	{"namespace A { export namespace B { export const v = 1 } } export import X = A.B.v; let t: number;", "namespace A { export namespace B { export const v = 1 } } export import X = A.B.v; let t;"},
+}
+
 func glueGrid(st *Stats) {
 	for _, withSyntax := range []bool{false, true} {
 		mk := func(l api.Loader) api.TransformOptions {
@@ -92,6 +106,24 @@ func glueGrid(st *Stats) {
 				st.Fail("javascript-rejected-by-ts-loader", map[string]string{"javascript": src, "options": opt}, eb, "accepted")
 			} else if a != b {
 				st.Fail("js-ts-loader-output-differs", map[string]string{"javascript": src, "options": opt}, b, a)
+			}
+		}
+		for _, p := range typedUntypedPairsTS {
+			if withSyntax && strings.Count(p.ts, "import ") >= 2 {
+				continue // adjacent import-equals under minify-syntax: known finding L (replayed separately)
+			}
+			a, ea := transformText(p.js, mk(api.LoaderTS))
+			if ea != "" {
+				st.Histogram["grid-untyped-invalid"]++
+				continue
+			}
+			b, eb := transformText(p.ts, mk(api.LoaderTS))
+			st.Note("grid-typed-vs-untyped-ts", p.ts+opt, true)
+			input := map[string]string{"typed": p.ts, "untyped": p.js, "options": opt + " (both sides ts loader)"}
+			if eb != "" {
+				st.Fail("typed-program-rejected", input, eb, "accepted like its untyped counterpart")
+			} else if a != b {
+				st.Fail("typed-untyped-output-differs", input, b, a)
 			}
 		}
 		for _, p := range typedUntypedPairs {
